@@ -336,6 +336,67 @@ class Skeleton:
                 return ks
         return set(ALL_KINDS)
 
+    # ------------------------------------------------------------------ consumed language
+    def language(self, pid, depth=0):
+        """The set of token sequences a parser consumes on success - tokens ("one", class) for a one-byte recogniser and
+        ("many", class) for a take_while - read off the remainder chains of its accepting paths, sub-parsers expanded
+        down to the combinators. None when an accepting path contains a loop, a data-driven slice or a parser without a
+        body. Sequences that maximal munch excludes (a take_while followed by a byte of its own class) are dropped."""
+        key = ("lang", pid)
+        if key in self.memo:
+            return self.memo[key]
+        self.memo[key] = None     # recursion guard
+        k = pid[0] if pid else None
+        res = None
+        if k == "satisfy":
+            res = {(("one", frozenset(pid[1])),)} if pid[1] is not None else None
+        elif k == "tag":
+            res = {(("one", frozenset([pid[1]])),)} if pid[1] is not None else None
+        elif k == "take_while":
+            res = {(("many", frozenset(pid[1])),)} if pid[1] is not None else None
+        elif k == "optional":
+            inner = self.language(pid[1], depth + 1) if pid[1] else None
+            res = None if inner is None else set(inner) | {()}
+        elif k in ("fn", "factory") and depth < 12:
+            f = self.fns.get(pid[1])
+            if f is not None:
+                res = set()
+                for x in f["exits"]:
+                    r = self.exit_result(x)
+                    if not (r and r[0][0] == "ok"):
+                        continue
+                    ch = self.chain(self.rem_of(r[0][1]), f["inp"], x, f["ps"])
+                    if ch is None:
+                        res = None
+                        break
+                    seqs = {()}
+                    for c in ch:
+                        if len(c) < 3 or c[0] in ("loop", "slice", "empty") or not c[1] or c[1][0] in ("slice", "param"):
+                            seqs = None
+                            break
+                        sub = c[1]
+                        if sub[0] == "optional":
+                            some = f["ps"].decided(St(x.conds), ("tproj", ("payload", c[2], OK, 0), 1), SOME)
+                            inner = self.language(sub[1], depth + 1) if sub[1] else None
+                            lang = None if inner is None else (set(inner) if some is True else {()} if some is False else set(inner) | {()})
+                        else:
+                            lang = self.language(sub, depth + 1)
+                        if lang is None:
+                            seqs = None
+                            break
+                        seqs = {a + b for a in seqs for b in lang}
+                        if len(seqs) > 4000:
+                            seqs = None
+                            break
+                    if seqs is None:
+                        res = None
+                        break
+                    res |= seqs
+        if res is not None:
+            res = {q for q in res if not any(q[i][0] == "many" and q[i + 1][1] <= q[i][1] for i in range(len(q) - 1))}
+        self.memo[key] = res
+        return res
+
     # ------------------------------------------------------------------ dropped error kinds
     def dropped(self):
         """Sites where the error of a failed sub-parser application is neither propagated nor
